@@ -310,7 +310,7 @@ fn text_rewrites(src: &str) -> Vec<(&'static str, String)> {
 pub fn run(args: &Args) {
     let mut rng = Rng::new(args.seed);
     let mut sum = Summary::new();
-    let mut w = CaseWriter::new(&args.out, "c02", HEADER, 80);
+    let mut w = CaseWriter::new(&args.out, "c02", HEADER, 40);
     let mut evaluations = 0usize;
     let n = if args.thorough() { 1500 } else { 400 };
     let max_variants = if args.thorough() { 16 } else { 12 };
